@@ -12,10 +12,10 @@ Local Open Scope R_scope.
 
 (* unfold everything the translator produced (whatever its names are after regeneration) down to the
    operations of R, which stay folded *)
-Ltac rcbv := cbv -[Rplus Rmult Rminus Ropp Rdiv Rinv IZR sqrt exp ln sin cos tan atan asin acos sinh cosh tanh arcsinh
-                   Rpower Rabs PI powerRZ Rcbrt Racosh Ratanh Ratan2 Rltb Rleb Reqb Rlt_dec Rle_dec Req_EM_T].
-Ltac rcbv_in H := cbv -[Rplus Rmult Rminus Ropp Rdiv Rinv IZR sqrt exp ln sin cos tan atan asin acos sinh cosh tanh arcsinh
-                   Rpower Rabs PI powerRZ Rcbrt Racosh Ratanh Ratan2 Rltb Rleb Reqb Rlt_dec Rle_dec Req_EM_T] in H.
+Declare Reduction rred := cbv -[Rplus Rmult Rminus Ropp Rdiv Rinv IZR sqrt exp ln sin cos tan atan asin acos sinh cosh tanh arcsinh
+                   Rabs PI powerRZ Rcbrt Ratan2 Rltb Rleb Reqb Rlt_dec Rle_dec Req_EM_T].
+Ltac rcbv := match goal with |- ?G => let G' := eval rred in G in change G' end.
+Ltac rcbv_in H := let T := type of H in let T' := eval rred in T in change T' in H.
 
 (* ---- readings: which number a block denotes in each type ---- *)
 Definition dget (d : Derivative R) (i j : nat) : R :=
@@ -58,3 +58,14 @@ Definition wf_row (d : Derivative R) : Prop := match Derivative_f_0 d with Some 
 Definition wf_Dual2Vec (x : Dual2Vec R) : Prop := wf_row (Dual2Vec_f_v1 x).
 Definition wf_col (d : Derivative R) : Prop := match Derivative_f_0 d with Some m => mcols m = 1%nat | None => True end.
 Definition wf_HyperDualVec (x : HyperDualVec R) : Prop := wf_col (HyperDualVec_f_eps1 x).
+
+(* index sets: every part of each type *)
+Definition idx_Dual : list (@block unit) := [[]; [tt]].
+Definition idx_Dual2 : list (@block unit) := [[]; [tt]; [tt; tt]].
+Definition idx_Dual3 : list (@block unit) := [[]; [tt]; [tt; tt]; [tt; tt; tt]].
+Definition idx_HyperDual : list (@block nat) := [[]; [1]; [2]; [1; 2]]%nat.
+Definition idx_HHD : list (@block nat) := [[]; [1]; [2]; [3]; [1; 2]; [1; 3]; [2; 3]; [1; 2; 3]]%nat.
+Definition idx_DualVec (i : nat) : list (@block nat) := [[]; [i]].
+Definition idx_Dual2Vec (i j : nat) : list (@block nat) := [[]; [i]; [i; j]].
+Definition idx_HyperDualVec (i j : nat) : list (@block (nat + nat)) := [[]; [inl i]; [inr j]; [inl i; inr j]].
+
